@@ -132,6 +132,8 @@ int __wrap_getsockname (int fd, struct sockaddr *a, socklen_t *l) { if (sysfail 
 static pint icmp (pconstpointer a, pconstpointer b) { return (pint) ((intptr_t) a - (intptr_t) b); }
 static ppointer thr_fn (ppointer arg) { (void) arg; return NULL; }
 static void *foreign_fn (void *arg) { PUThread *me = p_uthread_current (); (void) p_uthread_current_id (); if (me != p_uthread_current ()) abort (); p_uthread_yield (); return arg; }
+static PUThreadKey *tr_key; static volatile int tr_go, tr_ready;
+static void *tlsrace_fn (void *arg) { __atomic_add_fetch (&tr_ready, 1, __ATOMIC_SEQ_CST); while (!__atomic_load_n (&tr_go, __ATOMIC_SEQ_CST)) ; (void) p_uthread_get_local (tr_key); return arg; }
 static PSocketAddress *loop0 (void) { return p_socket_address_new ("127.0.0.1", 0); }
 /* returns 1 iff the creation behaved as asked (ok -> object obtained, fail -> call failed and gave nothing) */
 static int acquire (const char *k, int want_ok, Obj *o) {
@@ -249,6 +251,20 @@ static int acquire (const char *k, int want_ok, Obj *o) {
 		for (i = 0; i < n; i++) if (pthread_create (&ft[i], NULL, foreign_fn, NULL) != 0) { n = i; break; }
 		for (i = 0; i < n; i++) pthread_join (ft[i], NULL);
 		o->a = NULL; o->aux = 1; ok = n > 0;
+	}
+	else if (!strcmp (k, "tlskey_race")) {      /* first use of a fresh TLS key by six threads at once: whoever loses the race for the native key gives its own back */
+		pthread_t rt[6]; int i, n = 6; long mark; long keep = 0;
+		pthread_mutex_lock (&amx); mark = next_id; pthread_mutex_unlock (&amx);
+		tr_key = p_uthread_local_new (NULL); __atomic_store_n (&tr_go, 0, __ATOMIC_SEQ_CST); __atomic_store_n (&tr_ready, 0, __ATOMIC_SEQ_CST);
+		for (i = 0; i < n; i++) if (pthread_create (&rt[i], NULL, tlsrace_fn, NULL) != 0) { n = i; break; }
+		while (__atomic_load_n (&tr_ready, __ATOMIC_SEQ_CST) < n) sched_yield ();
+		__atomic_store_n (&tr_go, 1, __ATOMIC_SEQ_CST);
+		for (i = 0; i < n; i++) pthread_join (rt[i], NULL);
+		p_uthread_local_free (tr_key);
+		/* documented: releasing the key reference keeps the native key and its block - exactly one block, the winner's */
+		pthread_mutex_lock (&amx); for (i = 0; i < nlive; i++) if (lid[i] >= mark && (keep == 0 || lid[i] < keep)) keep = lid[i]; pthread_mutex_unlock (&amx);
+		if (keep) vt_emit ("{\"e\":\"residue\",\"id\":%ld}", keep);
+		o->a = NULL; o->aux = 1; ok = tr_key != NULL;
 	}
 	else if (!strcmp (k, "thread_detached")) { PUThread *t = p_uthread_create ((PUThreadFunc) thr_fn, NULL, FALSE, NULL); o->a = t; ok = t != NULL; }
 	else if (!strcmp (k, "locks")) { o->a = p_mutex_new (); o->b = p_cond_variable_new (); o->c = p_rwlock_new (); o->aux = (long) p_spinlock_new (); ok = o->a && o->b && o->c && o->aux; }
